@@ -41,7 +41,7 @@ def main():
     c = Check("C09", a.tier, a.seed)
     if a.replay:
         r = json.load(open(a.replay)); c.seed, c.tier = r["seed"], r["tier"]
-    ok_mk, log = c.make([PROPS + "o", "Model/C09Run.vo"])
+    ok_mk, log = c.make([PROPS + "o", "Model/C09Run.vo", "Model/C10Run.vo"])   # Extract.v needs every run wrapper
     thms = theorems_of(PROPS)
     assumptions = c.audit("Props.C09", thms) if ok_mk and thms else {}
     binary = c.build_harness("release")
